@@ -215,4 +215,14 @@ theorem replicateRequestCore_createDb (n : Node) (token name : Bytes) (st : Stra
   unfold Node.replicateRequestCore createDbLine
   simp only []
 
+/-! ### the two lines above are the lines the source prints (`Gen/Wire.lean`, interpreted) -/
+
+theorem C04_create_db_line_is_generated (name token : Bytes) (st : Strategy) :
+    armFmt 0 [name, token, st.toBytes] = some (createDbLine name token st) := by
+  unfold armFmt; rw [C04_wire_arm_formats]; simp [fmtWith, createDbLine]
+
+theorem C04_snapshot_line_is_generated (names : List Bytes) (reclaim : Bool) :
+    armFmt 1 [Bytes.join [124] names, if reclaim then b!"true" else b!"false"] = some (snapshotLine names reclaim) := by
+  unfold armFmt; rw [C04_wire_arm_formats]; simp [fmtWith, snapshotLine]
+
 end Nun
